@@ -74,8 +74,18 @@ func resolve(scheme, host, port, path string) (d Deeplink, err error, pn bool) {
 func expect(tag string, d Deeplink, err error, host string, segs []string) {
 	owned := refOwned(host)
 	if !owned {
-		verifrt.Assert(err != nil, tag+"foreign-host-is-error")
-		return
+		if refOwned(refLower(host)) {
+			// a reserved host spelled with upper-case ASCII letters: host names are case-insensitive, so this is
+			// arguably the same Telegram-owned host; the statement does not say, and neither accepting nor
+			// refusing it is held against the library - but if it is accepted, the answer must be the right one
+			verifrt.Cover("reserved-host-in-other-case")
+			if err != nil {
+				return
+			}
+		} else {
+			verifrt.Assert(err != nil, tag+"foreign-host-is-error")
+			return
+		}
 	}
 	switch {
 	case len(segs) == 1 && len(segs[0]) > 0:
@@ -205,5 +215,29 @@ func H_C20_after_caller_edit(k, hostlen int) {
 	verifrt.Assert(!pn, "edit-no-panic")
 	if !pn {
 		expect("edit-foreign-", d, err, edited, segs)
+	}
+}
+
+// H_C20_unicode_lookalikes: hosts that differ from a reserved host only in a non-ASCII character which Unicode case
+// folding or compatibility mapping sends to the ASCII one (long s, Kelvin sign, dotless i, full-width letters):
+// they are foreign hosts (other IDNs), with any scheme, port and a symbolic username.
+func H_C20_unicode_lookalikes(k, seglen int) {
+	hosts := []string{"tele\u017fco.pe", "\u212a.me", "tele\u017fco.PE", "telegram.\u212a", "t.m\u0435", "\uff54.me", "telegram.d\u03bfg", "t\u0131.me"}
+	if k >= len(hosts) {
+		verifrt.Assert(true, "index-past-list")
+		return
+	}
+	scheme := []string{"", "http", "https"}[verifrt.Choice(3)]
+	port := []string{"", ":443"}[verifrt.Choice(2)]
+	seg := symString(seglen, segAlpha)
+	verifrt.Assume(len(seg) > 0)
+	for _, path := range []string{"/" + seg, "/joinchat/" + seg} {
+		d, err, pn := resolve(scheme, hosts[k], port, path)
+		verifrt.Assert(!pn, "lookalike-no-panic")
+		if pn {
+			continue
+		}
+		_ = d
+		verifrt.Assert(err != nil, "lookalike-foreign-host-is-error")
 	}
 }
